@@ -103,7 +103,7 @@ SPECIFIC = {
     "C10": ["timesim"],
     "C13": ["twins-cancel"],
     "C15": ["twins-fragment", "twins-stall", "readersim"],
-    "C17": ["arenasim"],
+    "C17": ["arenasim", "twins-aged"],
     # property -> extra groups (generated by tools/gen_*.py, registered in GENERATORS below)
 }
 
@@ -274,6 +274,27 @@ def gen_arenasim(tier, seed, outdir, mqv, root):
     json.dump({"tool_errors": [], "drift": drift, "samples": samples}, open(os.path.join(outdir, "meta.json"), "w"))
 
 
+AGED_CFGS = [{"rx": 128, "tx": tx, "client_id": b("ag%d" % tx), "ka": 0, "sei": 300} for tx in (96, 160, 256, 320, 1152)]
+# (history profile, overrides, pairs quick, pairs thorough)
+AGED = [("arena", {}, 15, 150), ("flow", {}, 10, 100), ("cancel", {}, 10, 100), ("faults", {}, 10, 100), ("limits", {}, 10, 100),
+        ("arena", {"calls": 400}, 3, 30), ("arena", {"calls": 3000, "max_conns": 40}, 0, 6)]
+
+
+def gen_aged(tier, seed, outdir, mqv, root):
+    samples = []
+    cf = os.path.join(outdir, "cfgs-aged.ndjson")
+    open(cf, "w").write("\n".join(json.dumps(c) for c in AGED_CFGS) + "\n")
+    for i, (pname, over, nq, nt) in enumerate(AGED):
+        n = nq if tier == "quick" else nt
+        if n == 0:
+            continue
+        pf = os.path.join(outdir, "profile-aged-%d.json" % i)
+        json.dump(dict(PROFILES[pname], **over), open(pf, "w"))
+        msg = run([mqv, "aged", str(seed * 100 + i), str(n), pf, os.path.join(outdir, "aged-%d-%s.trace" % (i, pname)), cf])
+        samples.append({"group": "twins-aged", "history_profile": pname, "overrides": over, "pairs": n, "harness": msg})
+    json.dump({"tool_errors": [], "samples": samples}, open(os.path.join(outdir, "meta.json"), "w"))
+
+
 def gen_twins(kind):
     def gen(tier, seed, outdir, mqv, root):
         n = TWINS[tier]
@@ -283,7 +304,7 @@ def gen_twins(kind):
     return gen
 
 
-GENERATORS = {"arenasim": gen_arenasim, "readersim": gen_readersim, "timesim": gen_timesim, "vectors": gen_vectors, "twins-stall": gen_twins("stall"), "twins-cancel": gen_twins("cancel"), "twins-fragment": gen_twins("fragment"), "common": gen_common, "witness": gen_witness, "cover": gen_cover, "sim": gen_sim}
+GENERATORS = {"twins-aged": gen_aged, "arenasim": gen_arenasim, "readersim": gen_readersim, "timesim": gen_timesim, "vectors": gen_vectors, "twins-stall": gen_twins("stall"), "twins-cancel": gen_twins("cancel"), "twins-fragment": gen_twins("fragment"), "common": gen_common, "witness": gen_witness, "cover": gen_cover, "sim": gen_sim}
 
 
 def generate(group, tier, seed, outdir, mqv, root):
